@@ -21,8 +21,16 @@ POLICY = {
     "thorough": [("full-rel", ["--depth", "8", "--max-seconds", "900"]), ("full-rel", ["--depth", "0", "--max-live", "2", "--max-objects", "3", "--sizes", "0,3,5", "--percents", "0,1,2,4,6", "--max-seconds", "900"]), ("full-dbg", ["--depth", "6"])],
 }
 
+GRID = {
+    "quick": [("full-dbg", ["--depth", "5"]), ("min-dbg", ["--depth", "4"])],
+    "thorough": [("full-rel", ["--depth", "6", "--set", "full"]), ("full-dbg", ["--depth", "5", "--set", "full"]), ("nofin-rel", ["--depth", "5", "--set", "full"]), ("min-dbg", ["--depth", "5", "--set", "full"])],
+}
+
 ENGINES = {
+    "C03": [sub_runs("grid", GRID)],
+    "C13": [sub_runs("grid", GRID)],
     "C15": [sub_runs("policy", POLICY)],
+    "C20": [sub_runs("grid", GRID)],
 }
 
 SETUP = []
